@@ -283,6 +283,15 @@ def _classify_divergence(room, peers, rights):
             return "deleted-row-present-on-some-peers" if rid in tomb_ids else "rows-missing-after-quiescence"
         best = max(have, key=lambda n: (n[3], int(n[6]) if n[6].isdigit() else -1))
         losers = [h for h in have if h != best]
+        # the winning version sits on a day its holder never marked (re-dated by a reference deletion, #3):
+        # no log row, or a log row that does not account for it -> nobody is ever told about it
+        for pi, p in enumerate(peers):
+            if rows[pi].get(rid) != best: continue
+            key = (best[1], best[2], day_of(best[3]))
+            row = p.log.get(key)
+            if key in p.missing or (row is not None and not row["dirty"] and row["chk"] not in ("ok",) and
+                                    ("n" in row["chk"] or "d" in row["chk"] or row["chk"] == "e")):
+                return "winning-version-on-a-day-its-holder-never-marked"
         author = best[4]
         if author.isdigit() and int(author) < len(rights) and rights[int(author)] == "s" and all(h[4] != author for h in losers):
             return "greater-version-refused-author-lacks-all-rows-right"
